@@ -46,6 +46,12 @@ class C17(PureCheck):
             yield {"op": "any", "s": enc.enc_text(s), "via": 1}
         for s in CORPUS:
             yield {"op": "any", "s": enc.enc_text(s), "via": 0, "pre": 1}
+        # long outputs: hundreds of sequences in one string, with and without an unsupported SGR code among them
+        for nseq, unsupported in ((257, "\x1b[99m"), (300, "\x9b20m")):
+            if True:
+                body = "".join("\x1b[%dm%c" % (90 + j % 8 if unsupported and j % 3 == 0 else 31 + j % 6, 97 + j % 26) + ("\x1b[2K" if j % 50 == 49 else "")
+                               for j in range(nseq))
+                yield {"op": "any", "s": enc.enc_text(unsupported + body + "\x1b[0m"), "via": nseq % 2}
         for k in range(3000 if tier == "quick" else 40000):
             n = rng.randrange(3, 9)
             yield {"op": "any", "s": enc.enc_text("".join(rng.choices(ALPHA, weights, k=n))), "via": k % 2, "pre": 1}
